@@ -345,9 +345,17 @@ class Ctx:
         if not res.ok:
             # count what did build
             built = 0
+            # a .vo counts only if it is newer than its source and than every regenerated
+            # file in scope (otherwise it may be a stale leftover of a dependent that make
+            # could not rebuild)
+            gens = [g.stat().st_mtime for d in scope_dirs(self.prop) for g in (COQ / d).glob("Gen*.v")]
+            newest_gen = max(gens) if gens else 0
             for f in sorted(self.coqdir.glob("*.v")):
-                if f.with_suffix(".vo").exists() and f.with_suffix(".vo").stat().st_mtime >= f.stat().st_mtime:
+                vo = f.with_suffix(".vo")
+                if vo.exists() and vo.stat().st_mtime >= f.stat().st_mtime and vo.stat().st_mtime >= newest_gen:
                     built += len(count_theorems(f))
+            if (COQ / rel).with_suffix(".vo").exists() and built >= len(names):
+                built = max(0, len(names) - 1)
             info["discharged"] = built
             return info
         rc, out = coqc_file(props_path)
